@@ -57,6 +57,11 @@ package integrate
 //@ -- per-axis results (whose arithmetic meaning is given by the contracts of HorizontalZoom / VerticalZoom).
 //@ define hzs(id: str, h) = HorizontalZoom(val(fld(id, 0)), val(fld(id, 1)), val(fld(id, 2)), h)
 //@ define vzs(id: str, v) = VerticalZoom(val(fld(id, 3)), val(fld(id, 4)), v)
+//@ -- opaque symbols keep string macros and field parsing out of the quantified invariants; `unfold` makes their
+//@ -- defining equations available as axioms triggered by applications of the symbols
+//@ defineopaquestr sjoin(h: str, v: str) = join(h, v)
+//@ defineopaquestrs ohz(id: str, h) = HorizontalZoom(val(fld(id, 0)), val(fld(id, 1)), val(fld(id, 2)), h)
+//@ defineopaquestrs ovz(id: str, v) = VerticalZoom(val(fld(id, 3)), val(fld(id, 4)), v)
 //@ define cross(e: str, id: str, h, v) = exists a, b :: 0 <= a && a < len(hzs(id, h)) && 0 <= b && b < len(vzs(id, v)) && e == join(hzs(id, h)[a], vzs(id, v)[b])
 //@ define zoomsok(id: str) = isext(id) && 0 <= val(fld(id, 0)) && val(fld(id, 0)) <= 35 && 0 <= val(fld(id, 3)) && val(fld(id, 3)) <= 35
 
@@ -70,6 +75,22 @@ package integrate
 //@   ensures [err-malformed] (exists k :: 0 <= k && k < len(extendedSpatialIds) && !isext(extendedSpatialIds[k])) ==> r1 != nil
 //@   ensures [ok] (0 <= hZoom && hZoom <= 35 && 0 <= vZoom && vZoom <= 35) && (forall k :: 0 <= k && k < len(extendedSpatialIds) ==> isext(extendedSpatialIds[k])) ==> r1 == nil
 //@   ensures [nodup] r1 == nil ==> nodup(r0)
+//@   -- every element of the cross product of the per-axis results of every input ID is in the result
+//@   unfold sjoin ohz ovz
+//@   ensures [covers] r1 == nil ==> (forall k, a, b :: 0 <= k && k < len(extendedSpatialIds) && 0 <= a && a < len(ohz(extendedSpatialIds[k], hZoom)) && 0 <= b && b < len(ovz(extendedSpatialIds[k], vZoom)) ==> member(sjoin(ohz(extendedSpatialIds[k], hZoom)[a], ovz(extendedSpatialIds[k], vZoom)[b]), r0))
+//@   loop 0 invariant [covers] (forall k, a, b :: 0 <= k && k < $i && 0 <= a && a < len(ohz(extendedSpatialIds[k], hZoom)) && 0 <= b && b < len(ovz(extendedSpatialIds[k], vZoom)) ==> member(sjoin(ohz(extendedSpatialIds[k], hZoom)[a], ovz(extendedSpatialIds[k], vZoom)[b]), resultIDList))
+//@   loop 1 invariant [ctx] hComponents == ohz(extendedSpatialIds[$i0], hZoom) && vComponents == ovz(extendedSpatialIds[$i0], vZoom)
+//@   loop 1 invariant [covers-old] (forall k, a, b :: 0 <= k && k < $i0 && 0 <= a && a < len(ohz(extendedSpatialIds[k], hZoom)) && 0 <= b && b < len(ovz(extendedSpatialIds[k], vZoom)) ==> member(sjoin(ohz(extendedSpatialIds[k], hZoom)[a], ovz(extendedSpatialIds[k], vZoom)[b]), resultIDList))
+//@   loop 1 invariant [covers-rows] forall a, b :: 0 <= a && a < $i && 0 <= b && b < len(vComponents) ==> member(sjoin(hComponents[a], vComponents[b]), resultIDList)
+//@   loop 2 invariant [ctx] hComponents == ohz(extendedSpatialIds[$i0], hZoom) && vComponents == ovz(extendedSpatialIds[$i0], vZoom) && 0 <= $i1 && $i1 < len(hComponents)
+//@   loop 2 invariant [covers-old] (forall k, a, b :: 0 <= k && k < $i0 && 0 <= a && a < len(ohz(extendedSpatialIds[k], hZoom)) && 0 <= b && b < len(ovz(extendedSpatialIds[k], vZoom)) ==> member(sjoin(ohz(extendedSpatialIds[k], hZoom)[a], ovz(extendedSpatialIds[k], vZoom)[b]), resultIDList))
+//@   loop 2 invariant [covers-rows] forall a, b :: 0 <= a && a < $i1 && 0 <= b && b < len(vComponents) ==> member(sjoin(hComponents[a], vComponents[b]), resultIDList)
+//@   loop 2 invariant [covers-row] forall b :: 0 <= b && b < $i ==> member(sjoin(hComponents[$i1], vComponents[b]), resultIDList)
+//@   -- ... and nothing else is
+//@   ensures [sound] r1 == nil ==> (forall e: str :: member(e, r0) ==> (exists k, a, b :: 0 <= k && k < len(extendedSpatialIds) && 0 <= a && a < len(ohz(extendedSpatialIds[k], hZoom)) && 0 <= b && b < len(ovz(extendedSpatialIds[k], vZoom)) && e == sjoin(ohz(extendedSpatialIds[k], hZoom)[a], ovz(extendedSpatialIds[k], vZoom)[b])))
+//@   loop 0 invariant [sound] (forall e: str :: member(e, resultIDList) ==> (exists k, a, b :: 0 <= k && k < $i && 0 <= a && a < len(ohz(extendedSpatialIds[k], hZoom)) && 0 <= b && b < len(ovz(extendedSpatialIds[k], vZoom)) && e == sjoin(ohz(extendedSpatialIds[k], hZoom)[a], ovz(extendedSpatialIds[k], vZoom)[b])))
+//@   loop 1 invariant [sound] (forall e: str :: member(e, resultIDList) ==> ((exists k, a, b :: 0 <= k && k < $i0 && 0 <= a && a < len(ohz(extendedSpatialIds[k], hZoom)) && 0 <= b && b < len(ovz(extendedSpatialIds[k], vZoom)) && e == sjoin(ohz(extendedSpatialIds[k], hZoom)[a], ovz(extendedSpatialIds[k], vZoom)[b])) || (exists a, b :: 0 <= a && a < $i && 0 <= b && b < len(vComponents) && e == sjoin(hComponents[a], vComponents[b]))))
+//@   loop 2 invariant [sound] (forall e: str :: member(e, resultIDList) ==> ((exists k, a, b :: 0 <= k && k < $i0 && 0 <= a && a < len(ohz(extendedSpatialIds[k], hZoom)) && 0 <= b && b < len(ovz(extendedSpatialIds[k], vZoom)) && e == sjoin(ohz(extendedSpatialIds[k], hZoom)[a], ovz(extendedSpatialIds[k], vZoom)[b])) || (exists a, b :: 0 <= a && a < $i1 && 0 <= b && b < len(vComponents) && e == sjoin(hComponents[a], vComponents[b])) || (exists b :: 0 <= b && b < $i && e == sjoin(hComponents[$i1], vComponents[b]))))
 //@   loop 0 invariant [wf] forall k :: 0 <= k && k < $i ==> isext(extendedSpatialIds[k])
 //@ end
 
